@@ -339,7 +339,7 @@ H_SMILES = ['[H]C([H])([H])[H]', '[H][H]', '[2H]C', '[H]O[H]', 'C[H]', '[H]C([H]
             '[H]C([H])([H])C([H])([H])O[H]', '[H]Cl', '[H][Cl+][H]', '[H][O-]', '[H][O+]([H])[H]', '[H]P([H])([H])([H])[H]', '[H]S([H])([H])[H]',
             '[H]N=O', '[H]N(=O)=O', '[H]C([H])([H])N(=O)=O', '[H][C]([H])[H] |^1:1|', '[H][C-]([H])[H]', '[H][C+]([H])[H]', '[Na][H]', '[H][Fe][H]',
             '[H]C([H])([H])[2H]', 'C([H])([H])([H])([H])[H]', '[H]O', '[H]N', 'O([H])([H])[H]', '[H]F', 'F[H]F', '[H]B([H])[H]', '[H][B-]([H])([H])[H]',
-            '[H]C(=[H])', '[H]=C']
+            '[H]C(=[H])', '[H]=C', 'CB1(C)~[H]B(C)(C)~[H]1', 'B1~[H]B~[H]1', 'CB(C)~[H]', 'C[H]~B(C)C', 'B~[H]~B', '[H]~[H]', 'CB1(C)~[H]B(C)(C)[H]1']
 
 
 def pyres_mol(fn, m):
@@ -406,6 +406,11 @@ RES_SMILES = ['[CH2-]C=C[CH2+]', '[O-]C=CC=[NH2+]', '[O-]C=C[CH2+]', '[CH2]C=C[C
               '[O-]C1=CC=[N+](C)C=C1', '[CH2-]C=CC=[N+](C)C', '[O]C=C[CH2] |^1:0,3|', '[O]C=CC=C[O] |^1:0,5|', '[CH2-]C=C[NH+]=C', '[O-]C(C)=[O+]C',
               '[CH2-]C#C[CH2+]', '[CH2-]C=C=C[CH2+]', '[O-]C=C[C+](C)C', '[CH2-]C=CC=CC=CC=C[CH2+]', '[NH-]C=C[CH2+]', '[S-]C=C[CH2+]', '[B-](C)(C)(C)C=C[CH2+]',
               '[O-]P(C)(C)=C[CH2+]', '[CH-]=C[CH2+]', '[CH2-][S+](C)C', 'C[N+](C)(C)C=C[O-]', '[O-]C=C[N+](C)(C)C', '[O-]C=C[P+](C)(C)C',
+              # rejected paths: X-[S+]=X reached through its single bond (b != 1), amine donor -> cationic / nitrile nitrogen, exit atoms whose
+              # valence would not survive the discharge (roll back), next to accepted paths of the same families
+              '[O-]C=C[S+]=C', 'CC(C)=[S+]C=C(C)[O-]', 'C[N-]C=C[S+]=CC', '[CH2-]C=C[S+]=C', '[O-]C=CC=C[S+]=C', 'CN(C)C=C[S+]=C', 'NC=C[S+]=C', '[O-]C=CC=[S+]C',
+              '[O-]C=C[Se+]=C', '[S-]C=C[S+]=C', '[O-]C=C[S+]=C.[O-]C=C[CH2+]', '[O-]C=C[O+](C)C', '[S-]C=C[O+](C)C', '[CH2-]C=C[O+](C)C', '[O-]C=C[N+](C)=C',
+              'CNC=CC=[N+](C)C', 'CNC=C[N+](C)=C', 'NC=CC=[N+](C)C', 'NC=CC#N', 'CNC=CC#N', '[O-]C=CC#N', '[O-]C=C[NH+]=C', '[O-]C=C[S+](C)C', '[O-]C=C[P+](C)(C)C',
               '[CH2-]C=C[CH2+].[CH2-]C=C[CH2+]', '[O-]C=C[CH+]C=C[O-]', '[CH2+]C=C[CH-]C=C[CH2+]', 'NC=CC=[O+]C', 'CNC=C[CH2+]', '[CH2-]C=CN#N']
 
 
@@ -677,7 +682,17 @@ def check_op(ck, lim, name, smi, make, renumber=True, fixed_corpus=False):
                            fmt_counter(after['heavy']), fmt_counter(before['heavy']), 'multiset of (atomic number, isotope) over non-hydrogen atoms', replay_py=rp)
     if valid:
         if after['invalid']:
-            lim.counterexample(f'valence error {name}', f'valence:{name}:{smi}', f'{code} produces a valence error on valence-valid input', inp,
+            key = f'valence:{name}:{smi}'
+            if family in ('fix_resonance', 'standardize', 'canonicalize'):
+                try:        # is it fix_resonance alone that discharges into an atom whose valence does not survive it?
+                    x = make()
+                    x.kekule()
+                    x.fix_resonance()
+                    if not valence_valid(x):
+                        key = 'valence-error:fix_resonance-discharges-into-an-invalid-valence'
+                except Exception:
+                    pass
+            lim.counterexample(f'valence error {name}', key, f'{code} produces a valence error on valence-valid input', inp,
                                {'invalid atoms': after['invalid'], 'result': str(m)}, 'no atom with implicit_hydrogens None', 'check_valence', replay_py=rp)
         dq, dh = after['charge'] - before['charge'], after['h'] - before['h']
         if name in PROTON_TRANSFER:
@@ -699,8 +714,8 @@ def check_op(ck, lim, name, smi, make, renumber=True, fixed_corpus=False):
         if after['radicals'] % 2 != before['radicals'] % 2 and not (dq or dh):
             lim.counterexample(f'radical parity {name}', f'radicals:{name}:{smi}', f'{code} changes the parity of the radical count', inp,
                                after['radicals'], before['radicals'], 'number of radical atoms mod 2', replay_py=rp)
-    # idempotence: a second application changes nothing (molecules compared; the return value is not a change indicator)
     first = m.copy()
+    # idempotence: a second application changes nothing (molecules compared; the return value is not a change indicator)
     try:
         log2 = LOGGED.get(name, op)(m)
     except Exception as e:
@@ -731,6 +746,37 @@ def check_op(ck, lim, name, smi, make, renumber=True, fixed_corpus=False):
                                str(m), str(first), 'labelled-graph isomorphism of the results of the first and the second application', replay_py=rp)
         elif state(m) != state(first):
             ck.count(f'search:{name}: second application moves to a symmetry-equivalent spelling')
+    # history independence: an object whose cached views were read before (str, hash, atoms_order, rings, components) behaves like a fresh
+    # one: same result of the first and of the second application
+    w = make()
+    try:
+        str(w), hash(w), w.atoms_order, w.sssr, w.connected_components, w.aromatic_rings
+        format(w, 'r')
+    except Exception:
+        w = None
+    if w is not None:
+        try:
+            op(w)
+            warm1 = w.copy()
+            op(w)
+            err = None
+        except Exception as e:
+            err = f'{type(e).__name__}: {e}'
+        rpw = (f'from chython import smiles\n{build}\nf = m.copy(); str(m), hash(m), m.atoms_order   # m has its views cached, f is fresh\n'
+               f'{code}; {code.replace("m.", "f.")}\nprint(str(m)); print(str(f))\n{code}; {code.replace("m.", "f.")}\nprint(str(m)); print(str(f))')
+        if err is not None:
+            if valid:
+                lim.counterexample(f'history {name}', f'history-raises:{name}:{smi}', f'{code} raises on an object whose cached views were read before, not on a fresh one',
+                                   inp, err, str(first), 'same operation on a fresh and on a previously rendered / hashed object', replay_py=rpw)
+        elif valid or valence_valid(first):
+            same = state(warm1) == state(first) or isomorphic(first, warm1)
+            same2 = state(w) == state(m) or isomorphic(m, w)
+            if same is False or same2 is False:
+                lim.counterexample(f'history {name}', f'history:{name}:{smi}', f'{code} depends on the history of the object: after str()/hash()/atoms_order were read '
+                                   'the result of the first or of the second application differs from that on a freshly built object', inp,
+                                   {'first': str(warm1), 'second': str(w)}, {'first': str(first), 'second': str(m)},
+                                   'labelled-graph isomorphism of op(fresh object) and op(object with cached views), first and second application', replay_py=rpw)
+            ck.count('search:history (cached views read first) checked')
     # numbering independence
     if renumber and valid and (family not in TAUTOMERIC or 'False' in name or fixed_corpus):
         src = make()
@@ -813,10 +859,15 @@ def search(ck, rng):
         pool.append(('hand', s, None))
     for _, want in test_groups_data():
         pool.append(('documented result', want, None))      # the documented canonical spellings must be fixed points
+    for s in AZOLIUM:
+        pool.append(('azolium', s, 'kekule'))
+        pool.append(('azolium', s, 'thiele'))
     groups = doc_groups()
     for tag, s, k in pool:
         # hydrogen counts of aromatic hetero-atoms are unknown right after parsing: inputs are Kekule forms or re-aromatised ones
         thiele = bool(hash_pick(s, 'form') % 2)
+        if k in ('kekule', 'thiele'):
+            thiele, k = k == 'thiele', None
         if k is None:
             def make(s=s, thiele=thiele):
                 return prepared(smiles(s), thiele)
@@ -865,6 +916,12 @@ def hash_pick(*xs):
 SALTS = ['[NH4+].[Cl-]', 'CC(=O)[O-].[Na+]', '[Na+].[O-]c1ccccc1', 'C[NH3+].[O-]C(C)=O', 'C[NH3+].[Cl-]', 'CC(=O)[O-].C[NH3+].[Na+].[Cl-]', '[O-]C(=O)CC[NH3+]',
          'C[NH2+]C.[O-]S(=O)(=O)C', 'OC(=O)CC(=O)[O-].[K+]', 'c1cc[nH+]cc1.[Br-]', 'CC(=O)O.CN', 'C[N+](C)(C)C.[OH-]', '[O-]C(=O)C[N+](C)(C)C', 'NC(N)=[NH2+].[O-]C=O',
          'CS(=O)(=O)[O-].C[NH+](C)C', '[O-]c1ccccc1.[NH4+]', 'C[O-].[Li+]', 'CC[NH+](CC)CC.[O-]C(=O)C(F)(F)F']
+# azolium cations matched by the (pattern, fix) tables of standardize_charges; the two ring nitrogens are mostly NOT symmetry equivalent, so
+# the Morgan tie-break of morgan_rules decides; both charge spellings of each
+AZOLIUM = ['Cc1cc[nH][nH+]1', 'Cc1cc[nH+][nH]1', 'Cc1c[nH]c[nH+]1', 'Cc1c[nH+]c[nH]1', 'CCn1cc[n+](C)c1', 'Cn1cc[n+](CC)c1', 'c1cc[nH][nH+]1', 'Cc1ccn(C)[n+]1C',
+           'Cc1ccc2[nH]c[nH+]c2c1', 'Cc1ccc2[nH+]c[nH]c2c1', 'Cc1cc[nH+]n1C', 'Cc1ccn(C)[nH+]1', 'Cc1c[nH+]cn1C', 'Cc1cn(C)c[nH+]1', 'C[n+]1ccn(c1)c1ccccc1',
+           'Fc1cc[nH][nH+]1', 'Fc1cc[nH+][nH]1', 'Cc1cc(CC)[nH][nH+]1', 'Cc1cc(CC)[nH+][nH]1', 'OC(=O)c1cc[nH][nH+]1.[Cl-]', 'Cc1[nH]nc[nH+]1', 'Cc1csc[nH+]1',
+           'Cc1cc[nH][nH+]1.Cc1c[nH+]c[nH]1', '[Fe+2].c1cc[cH-]c1.C[c-]1cccc1']
 TAUT_SMILES = ['CC(=O)CC(C)=O', 'OC1=NC=CC=C1', 'O=C1NC=CC=C1', 'CC(=O)C', 'C1C=CC=N1', 'NC(N)=N.Cl', 'N1C=CN=N1.Cl', 'CC(O)=CC', 'C[C@H](F)C=O', 'C/C=C/C(C)=O',
                'CC(=O)C[C@H](C)F', 'C[C@H](N)C(=O)O', 'O=C1CCCCC1', 'OC=CC=O', 'Oc1ccccc1', 'Oc1ccc(O)cc1', 'CC(=O)Nc1ccccc1', 'c1cc[nH]n1', 'c1nc[nH]n1', 'N=C(N)c1ccccc1',
                'C[NH3+].[Cl-]', 'OC(=O)CN', 'OCC(O)C=O', 'O=CC(O)C(O)CO', 'CC(=N)C', 'CC(=O)CC#N', 'O=C1C=CC(=O)C=C1', 'Cc1cc(=O)[nH]c(=O)[nH]1', 'Oc1ncnc2[nH]cnc12']
